@@ -68,7 +68,7 @@ def rule_guard_shape(P, which=("binarize", "_push_null_weights", "unaryremove", 
             raise AnalysisError("cfg.py::CFG.binarize: no add site on the result")
         for c in sites:
             ex, st = _body_args(c)
-            facts = W.guard_facts(c)
+            facts = W.cguard_facts(f.node, c)
             ok = len(st) <= 1
             hi_total = len(ex)
             for s in st:
@@ -87,7 +87,7 @@ def rule_guard_shape(P, which=("binarize", "_push_null_weights", "unaryremove", 
         res = _result_var(f)
         for c in [c for c in _adds(f) if norm(c.func.value) in res]:
             ex, st = _body_args(c)
-            facts = W.guard_facts(c)
+            facts = W.cguard_facts(f.node, c)
             nonempty = bool(ex)
             for s in st:
                 lo, hi = W.len_bounds(facts, norm(s))
@@ -105,7 +105,7 @@ def rule_guard_shape(P, which=("binarize", "_push_null_weights", "unaryremove", 
         res = _result_var(f)
         for c in [c for c in _adds(f) if norm(c.func.value) in res]:
             ex, st = _body_args(c)
-            facts = W.guard_facts(c)
+            facts = W.cguard_facts(f.node, c)
             ok = True
             why = ""
             for s in st:
@@ -127,7 +127,7 @@ def rule_guard_shape(P, which=("binarize", "_push_null_weights", "unaryremove", 
         sites = [c for c in _adds(f, into_nested=True) if norm(c.func.value) in res]
         for c in sites:
             ex, st = _body_args(c)
-            facts = W.guard_facts(c)
+            facts = W.cguard_facts(f.node, c)
             ok = False
             shape = "?"
             encl = W.enclosing_function(c)
@@ -183,7 +183,7 @@ def rule_guard_shape(P, which=("binarize", "_push_null_weights", "unaryremove", 
         res = _result_var(f)
         sym = f.params[1]
         for c in [c for c in _adds(f) if norm(c.func.value) in res]:
-            facts = W.guard_facts(c)
+            facts = W.cguard_facts(f.node, c)
             ex, st = _body_args(c)
             head = norm(c.args[1])
             okh = _pos_fact(facts, f"{head} in {sym}")
@@ -204,7 +204,7 @@ def rule_guard_shape(P, which=("binarize", "_push_null_weights", "unaryremove", 
         if not sites:
             raise AnalysisError("wfsa/base.py::WFSA.epsremove: no add_arc site")
         for c in sites:
-            facts = W.guard_facts(c)
+            facts = W.cguard_facts(f.node, c)
             lab = norm(c.args[1])
             ok = any((cmp := W.fact_cmp(ft)) and cmp[1] is ast.NotEq and {norm(cmp[0]), norm(cmp[2])} == {lab, "EPSILON"} for ft in facts)
             r.add(f, c, ok, "" if ok else f"`{first_line(c)}` can copy an ε-labelled arc into the ε-free machine",
@@ -247,7 +247,7 @@ def rule_guard_ucycle(P):
     if bk is None:
         raise AnalysisError("cfg.py::CFG.unarycycleremove: SCC bucket map not found")
     for c in acyc:
-        facts = W.guard_facts(c)
+        facts = W.cguard_facts(f.node, c)
         x = norm(c.args[0])
         single = any((cmp := W.fact_cmp(ft)) and cmp[1] is ast.Eq and norm(cmp[0]).startswith("len(") and norm(cmp[2]) == "1" for ft in facts)
         zero = any((cmp := W.fact_cmp(ft)) and cmp[1] is ast.Eq and norm(cmp[0]) == f"{gname}[{x}, {x}]" and norm(cmp[2]).endswith(".zero") for ft in facts)
@@ -262,22 +262,23 @@ def rule_guard_ucycle(P):
             continue
         n_copy += 1
         rv = norm(st[0]).rsplit(".", 1)[0]
-        facts = W.guard_facts(c)
+        facts = W.cguard_facts(f.node, c)
         dom = False
         for ft in facts:
             t = ft.test
             if not ft.pol and isinstance(t, ast.BoolOp) and isinstance(t.op, ast.And):
                 parts = [norm(v) for v in t.values]
-                if f"len({rv}.body) == 1" in parts and any(bk in p and f"{rv}.body[0]" in p and f"{rv}.head" in p and "==" in p for p in parts):
+                if f"len({rv}.body) == 1" in parts and any((bk in p or f"{gname}.buckets" in p) and f"{rv}.body[0]" in p and f"{rv}.head" in p and "==" in p for p in parts):
                     dom = True
             if ft.pol and norm(t) == f"{rv}.head in {aset}":
                 dom = True
             if ft.pol and isinstance(t, ast.BoolOp) and isinstance(t.op, ast.Or):
                 parts = [norm(v) for v in t.values]
-                if f"len({rv}.body) != 1" in parts and any(bk in p and "!=" in p for p in parts):
+                if f"len({rv}.body) != 1" in parts and any((bk in p or f"{gname}.buckets" in p) and "!=" in p for p in parts):
                     dom = True
         head = norm(c.args[1])
-        renamed = head == f"bot({rv}.head)" or any(ft.pol and norm(ft.test) == f"{rv}.head in {aset}" for ft in facts)
+        helpers = [g.name for g in P.funcs.values() if g.outer is f]
+        renamed = any(head == f"{h}({rv}.head)" for h in helpers) or any(ft.pol and norm(ft.test) == f"{rv}.head in {aset}" for ft in facts)
         ok = dom and renamed
         r.add(f, c, ok, "" if ok else f"`{first_line(c)}` copies an input rule that may be a unary rule inside a cyclic SCC "
               f"(or keeps a cyclic head un-renamed)", slots=dict(dominated=dom, head_renamed=renamed))
@@ -520,7 +521,7 @@ def rule_guard_trim(P):
             continue
         n_ins += 1
         sym = norm(c.args[0])
-        facts = W.guard_facts(c)
+        facts = W.cguard_facts(f.node, c)
         # which rule variable is being followed?  the innermost `for <e> in incoming/outgoing[...]`
         rulevar = None
         for a in ancestors(c):
@@ -617,12 +618,12 @@ def rule_guard_div(P, scope=None):
                 continue
             if fn == "proj" and rel == "wfsa/field_wfsa.py":
                 continue  # judged at the callers below
-            facts = W.guard_facts(nd)
-            ok = _nonzero_fact(facts, den)
+            facts = W.cguard_facts(f.node, nd)
+            ok = _nonzero_fact(facts, den) or _nonzero_fact(facts, W.canon_ast(f.node, den, nd))
             r.add(f, nd, ok, "" if ok else f"`{norm(nd)}`: nothing on the way here excludes `{norm(den)}` being zero",
                   slots=dict(denominator=norm(den), facts=[repr(x) for x in facts][:6]),
                   witness=("acyclic automaton with a dead state (0 -a→ 1 final, 0 -b→ 2): m.determinize → ZeroDivisionError "
-                           "(DESIGN §5 D20)") if not ok and "_powerarcs" in fn else None)
+                           "(DESIGN §5 D20)") if not ok and "determinize" in fn else None)
     # Gram-Schmidt: every list handed to proj(u, basis)
     if scope is None or any("field_wfsa" in s for s in scope):
         for q in ("wfsa/field_wfsa.py::Simple.counterexample", "wfsa/field_wfsa.py::Simple.forward_basis"):
